@@ -2,26 +2,23 @@ import Arc.Model.C23
 import Arc.Proofs.C22.SMapLemmas
 import Arc.Generated.C23
 import Arc.Proofs.C22.RestoreParents
+import Arc.Model.C22.PreFix
 /-!
 # C23 — cluster role assignments stay consistent
 
-Property (full statement, kept for reference):
+Property: in every state reachable through cluster commands,
+  (1) at most one node is marked primary writer                          — `C23_one_primary`
+  (2) a node named as the primary writer exists and is marked primary    — `C23_primary_exists`
+  (3) re-registering an existing node does not silently change the role assignment recorded for it
+                                                                         — `C23_reregister`
+  (4) every team, role, measurement permission and membership refers to parents that exist
+                                                                         — `C23_rbac_parents`
+All four hold at full strength for the CURRENT FSM (`internal/cluster/raft/fsm.go` after the fixes
+93fb282, 4708dee, 466f761), for every history: any commands (valid, invalid, duplicate, out of order)
+at any log indexes, with snapshot+restore steps anywhere.
 
-  In every state reachable through cluster commands,
-  (1) at most one node is marked primary writer,
-  (2) a node named as the primary writer exists and is marked primary,
-  (3) re-registering an existing node does not silently change the role assignment recorded for it,
-  (4) every team, role, measurement permission and membership refers to parents that exist.
-
-Clauses (1)–(3) are FALSE of the real FSM (`internal/cluster/raft/fsm.go`): each has a `_witness`
-theorem (a 2–4 command history from the empty state, replayed on the real code by the harness) and a
-`_partial` theorem under the explicit decidable carve-out `roleSafe` (Arc.Model.C23).
-Clause (4) holds at full strength (`C23_rbac_parents`).
-
-  -- theorem C23_one_primary_full    : ∀ evs, OnePrimary    (runEv State.empty evs).cl   -- FALSE
-  -- theorem C23_primary_exists_full : ∀ evs, PrimaryExists (runEv State.empty evs).cl   -- FALSE
-  -- theorem C23_reregister_full : s.cl.nodes.get? n.id = some old →
-  --     ∃ n', (apply s i (.addNode n)).1.cl.nodes.get? n.id = some n' ∧ n'.wstate = old.wstate   -- FALSE
+Clauses (1)–(3) were false before those fixes; the `C23_prefix_*_witness` theorems keep the
+counterexamples as statements about the explicitly named pre-fix functions (`Arc.C22.PreFix`).
 -/
 namespace Arc.C23
 open Arc.C22 Arc.C22.SMap
@@ -60,37 +57,65 @@ theorem onePrimary_of_inv {s : NodeSt} (h : RoleInv s) : OnePrimary s := by
   intro k1 k2 n1 n2 h1 h2 m1 m2
   rw [(h.1 k1 n1 h1 m1).1, (h.1 k2 n2 h2 m2).1]
 
-theorem roleInv_addNode {s : NodeSt} (h : RoleInv s) (n : NodeInfo)
-    (hs' : n.wstate = "primary" ↔ (n.id = s.pw ∧ s.pw ≠ "")) :
-    RoleInv (applyAddNode s n).1 := by
+theorem roleInv_addNode {s : NodeSt} (h : RoleInv s) (n : NodeInfo) : RoleInv (applyAddNode s n).1 := by
   unfold applyAddNode
-  refine ⟨?_, ?_⟩
-  · intro k m hk hm
-    simp only [get?_ins] at hk
-    by_cases hkn : k = n.id
-    · simp [hkn] at hk; subst hk; rw [hkn]; exact hs'.mp hm
-    · simp [hkn] at hk; exact h.1 k m hk hm
-  · intro hpw
-    simp only at hpw ⊢
-    simp only [get?_ins]
-    by_cases hkn : s.pw = n.id
-    · simp only [hkn, if_true]
-      exact ⟨n, rfl, hs'.mpr ⟨hkn.symm, hpw⟩⟩
-    · simp only [hkn, if_false]; exact h.2 hpw
+  cases hg : s.nodes.get? n.id with
+  | some old =>
+    refine ⟨?_, ?_⟩
+    · intro k m hk hm
+      simp only [get?_ins] at hk
+      by_cases hkn : k = n.id
+      · simp only [hkn, if_true, Option.some.injEq] at hk
+        subst hk
+        rw [hkn]; exact h.1 n.id old hg hm
+      · simp only [hkn, if_false] at hk; exact h.1 k m hk hm
+    · intro hpw
+      simp only at hpw ⊢
+      simp only [get?_ins]
+      by_cases hkn : s.pw = n.id
+      · simp only [hkn, if_true]
+        obtain ⟨q, hq, hm⟩ := h.2 hpw
+        rw [hkn, hg] at hq
+        cases hq
+        exact ⟨_, rfl, hm⟩
+      · simp only [hkn, if_false]; exact h.2 hpw
+  | none =>
+    refine ⟨?_, ?_⟩
+    · intro k m hk hm
+      simp only [get?_ins] at hk
+      by_cases hkn : k = n.id
+      · simp only [hkn, if_true, Option.some.injEq] at hk
+        subst hk
+        exfalso
+        by_cases hp : n.wstate = "primary"
+        · simp [hp] at hm
+        · simp [hp] at hm
+      · simp only [hkn, if_false] at hk; exact h.1 k m hk hm
+    · intro hpw
+      simp only at hpw ⊢
+      simp only [get?_ins]
+      obtain ⟨q, hq, hm⟩ := h.2 hpw
+      have hkn : s.pw ≠ n.id := by
+        intro e; rw [e, hg] at hq; exact absurd hq (by simp)
+      simp only [hkn, if_false]; exact ⟨q, hq, hm⟩
 
-theorem roleInv_removeNode {s : NodeSt} (h : RoleInv s) (id : String)
-    (hs' : ¬ (id = s.pw ∧ s.pw ≠ "")) : RoleInv (applyRemoveNode s id).1 := by
+theorem roleInv_removeNode {s : NodeSt} (h : RoleInv s) (id : String) : RoleInv (applyRemoveNode s id).1 := by
   unfold applyRemoveNode
   refine ⟨?_, ?_⟩
   · intro k m hk hm
     simp only [get?_del] at hk
     by_cases hkn : k = id
     · simp [hkn] at hk
-    · simp [hkn] at hk; exact h.1 k m hk hm
+    · simp only [hkn, if_false] at hk
+      have := h.1 k m hk hm
+      have hne : s.pw ≠ id := fun e => hkn (this.1.trans e)
+      simp only [hne, if_false]; exact this
   · intro hpw
     simp only at hpw ⊢
-    have hne : s.pw ≠ id := fun e => hs' ⟨e.symm, hpw⟩
-    simp only [get?_del, hne, if_false]; exact h.2 hpw
+    by_cases hpi : s.pw = id
+    · simp [hpi] at hpw
+    · simp only [hpi, if_false] at hpw ⊢
+      simp only [get?_del, hpi, if_false]; exact h.2 hpw
 
 theorem roleInv_updateNodeState {s : NodeSt} (h : RoleInv s) (id st : String) :
     RoleInv (applyUpdateNodeState s id st).1 := by
@@ -127,18 +152,13 @@ theorem get?_demoteOld (nodes : SMap String NodeInfo) (pw id k : String) :
     · rw [if_neg hk, if_neg (fun hh => hk hh.2.2)]
   · rw [if_neg h, if_neg (fun hh => h ⟨hh.1, hh.2.1⟩)]
 
-theorem roleInv_promote {s : NodeSt} (h : RoleInv s) (id : String)
-    (hs : id = "" ∨ s.nodes.has id = true) : RoleInv (applyPromote s id).1 := by
+theorem roleInv_promote {s : NodeSt} (h : RoleInv s) (id : String) : RoleInv (applyPromote s id).1 := by
   unfold applyPromote
   by_cases hid : id = ""
   · simp [hid]; exact h
   · simp only [hid, if_false]
     cases hg : s.nodes.get? id with
-    | none =>
-      exfalso
-      rcases hs with hs | hs
-      · exact hid hs
-      · simp [has, hg] at hs
+    | none => exact h
     | some n =>
       simp only
       by_cases hr : n.role ≠ "writer"
@@ -206,165 +226,120 @@ theorem roleInv_compactor {s : NodeSt} (h : RoleInv s) (id : String) :
   unfold applyAssignCompactor
   by_cases hid : id = "" <;> simp [hid] <;> exact h
 
-theorem roleInv_clStep {s : NodeSt} (h : RoleInv s) (c : Cmd) (hs : roleSafe s c = true) :
-    RoleInv (clStep s c) := by
+theorem roleInv_clStep {s : NodeSt} (h : RoleInv s) (c : Cmd) : RoleInv (clStep s c) := by
   cases c <;> try exact h
-  · exact roleInv_addNode h _ (of_decide_eq_true hs)
-  · exact roleInv_removeNode h _ (of_decide_eq_true hs)
-  · exact roleInv_addNode h _ (of_decide_eq_true hs)
+  · exact roleInv_addNode h _
+  · exact roleInv_removeNode h _
+  · exact roleInv_addNode h _
   · exact roleInv_updateNodeState h _ _
-  · exact roleInv_promote h _ (of_decide_eq_true hs)
+  · exact roleInv_promote h _
   · exact roleInv_demote h _
   · exact roleInv_compactor h _
 
-theorem roleInv_run (s : State) (evs : List Ev) (h : RoleInv s.cl) (hs : roleSafeRun s evs = true) :
-    RoleInv (runEv s evs).cl := by
+theorem roleInv_run (s : State) (evs : List Ev) (h : RoleInv s.cl) : RoleInv (runEv s evs).cl := by
   induction evs generalizing s with
   | nil => exact h
   | cons e es ih =>
     cases e with
     | cmd i c =>
-      simp only [roleSafeRun, Bool.and_eq_true] at hs
       simp only [runEv, stepEv]
       apply ih
-      · rw [apply_cl]; exact roleInv_clStep h c hs.1
-      · exact hs.2
+      rw [apply_cl]; exact roleInv_clStep h c
     | restore =>
-      simp only [roleSafeRun] at hs
       simp only [runEv, stepEv]
-      exact ih _ (by rw [restore_cl]; exact h) hs
-
-/-! ## clause (1): at most one node is marked primary -/
+      exact ih _ (by rw [restore_cl]; exact h)
 
 def nodeW (id ws : String) : NodeInfo :=
   { id := id, name := id, role := "writer", cluster := "c", address := "a", api := "b",
     state := "healthy", version := "v", wstate := ws, cores := 4 }
 
-/-- **C23_one_primary_witness.** Two AddNode commands whose payloads carry
-`writer_state = "primary"` leave two nodes marked primary (real FSM: monitor `one-primary:node-payload`). -/
-theorem C23_one_primary_witness :
-    ¬ OnePrimary (runEv State.empty
+/-! ## clause (1): at most one node is marked primary -/
+
+/-- **C23_one_primary.** In every reachable state at most one node is marked primary. -/
+theorem C23_one_primary (evs : List Ev) : OnePrimary (runEv State.empty evs).cl :=
+  onePrimary_of_inv (roleInv_run State.empty evs roleInv_empty)
+
+/-! ## clause (2): the primary writer id names an existing node that is marked primary -/
+
+/-- **C23_primary_exists.** In every reachable state a non-empty `primaryWriterID` names a node
+that exists and is marked primary. -/
+theorem C23_primary_exists (evs : List Ev) : PrimaryExists (runEv State.empty evs).cl :=
+  (roleInv_run State.empty evs roleInv_empty).2
+
+/-- … and a node is marked primary only if it is the recorded primary writer. -/
+theorem C23_marked_is_recorded (evs : List Ev) (k : String) (n : NodeInfo)
+    (h : (runEv State.empty evs).cl.nodes.get? k = some n) (hm : n.wstate = "primary") :
+    k = (runEv State.empty evs).cl.pw :=
+  ((roleInv_run State.empty evs roleInv_empty).1 k n h hm).1
+
+/-- non-vacuity: promotion, failover, the primary rejoins (join proposes writer_state ""), a leave of
+the primary, payloads that claim "primary", a promotion of an unknown id — the state stays sane -/
+example :
+    let s := runEv State.empty
+      [.cmd 1 (.addNode (nodeW "n1" "primary")), .cmd 2 (.addNode (nodeW "n2" "primary")), .cmd 3 (.promote "n1" ""),
+       .restore, .cmd 5 (.addNode (nodeW "n1" "")), .cmd 6 (.promote "n4" "n1"), .cmd 7 (.updateNode (nodeW "n2" "primary"))]
+    s.cl.pw = "n1" ∧ (s.cl.nodes.get? "n1").map (·.wstate) = some "primary" ∧
+    (s.cl.nodes.get? "n2").map (·.wstate) = some "" ∧
+    (runEv s [.cmd 8 (.removeNode "n1")]).cl.pw = "" := by decide
+
+/-! ## clause (3): re-registering a node -/
+
+/-- **C23_reregister.** AddNode (and UpdateNode) of an existing id keeps the recorded
+`writer_state`, whatever the payload says, and leaves `primaryWriterID`, the compactor lease and
+every other node's record untouched — for every state. -/
+theorem C23_reregister (s : State) (i : Nat) (n old : NodeInfo) (hold : s.cl.nodes.get? n.id = some old) :
+    (∃ n', (apply s i (.addNode n)).1.cl.nodes.get? n.id = some n' ∧ n'.wstate = old.wstate) ∧
+    (∃ n', (apply s i (.updateNode n)).1.cl.nodes.get? n.id = some n' ∧ n'.wstate = old.wstate) ∧
+    (apply s i (.addNode n)).1.cl.pw = s.cl.pw ∧
+    (apply s i (.addNode n)).1.cl.compactor = s.cl.compactor ∧
+    (∀ k, k ≠ n.id → (apply s i (.addNode n)).1.cl.nodes.get? k = s.cl.nodes.get? k) := by
+  have e : (apply s i (.addNode n)).1.cl = (applyAddNode s.cl n).1 := rfl
+  have e2 : (apply s i (.updateNode n)).1.cl = (applyAddNode s.cl n).1 := rfl
+  have hA : (applyAddNode s.cl n).1 = { s.cl with nodes := s.cl.nodes.ins n.id { n with wstate := old.wstate } } := by
+    unfold applyAddNode; rw [hold]
+  rw [e, e2, hA]
+  refine ⟨⟨_, get?_ins_self _ _ _, rfl⟩, ⟨_, get?_ins_self _ _ _, rfl⟩, rfl, rfl, ?_⟩
+  intro k hk
+  exact get?_ins_ne _ _ _ _ hk
+
+example : ∃ (s : State) (n old : NodeInfo), s.cl.nodes.get? n.id = some old ∧ old.wstate = "primary" ∧ n.wstate = "" :=
+  ⟨runEv State.empty [.cmd 1 (.addNode (nodeW "n1" "")), .cmd 2 (.promote "n1" "")],
+   nodeW "n1" "", nodeW "n1" "primary", by decide, rfl, rfl⟩
+
+/-! ## the pre-fix counterexamples (statements about `Arc.C22.PreFix`, not about the current code) -/
+
+/-- pre-466f761: two AddNode payloads carrying `writer_state = "primary"` left two nodes marked -/
+theorem C23_prefix_one_primary_witness :
+    ¬ OnePrimary (PreFix.runEv State.empty
         [.cmd 1 (.addNode (nodeW "n1" "primary")), .cmd 2 (.addNode (nodeW "n2" "primary"))]).cl := by
   intro h
   have := h "n1" "n2" (nodeW "n1" "primary") (nodeW "n2" "primary") (by decide) (by decide) rfl rfl
   exact absurd this (by decide)
 
-/-- **C23_one_primary_partial.** For every history (commands at any log indexes, snapshot+restore
-steps anywhere) that stays inside the carve-out `roleSafe`, at most one node is marked primary. -/
-theorem C23_one_primary_partial (evs : List Ev) (hs : roleSafeRun State.empty evs = true) :
-    OnePrimary (runEv State.empty evs).cl :=
-  onePrimary_of_inv (roleInv_run State.empty evs roleInv_empty hs)
+/-- pre-93fb282 / pre-4708dee / pre-466f761: promote of an unknown id, leave of the primary and
+rejoin of the primary each left `primaryWriterID` naming a missing or unmarked node -/
+theorem C23_prefix_primary_exists_witness :
+    (PreFix.runEv State.empty [.cmd 1 (.addNode (nodeW "n1" "")), .cmd 2 (.promote "n1" ""),
+        .cmd 3 (.promote "n4" "n1")]).cl.pw = "n4" ∧
+    (PreFix.runEv State.empty [.cmd 1 (.addNode (nodeW "n1" "")), .cmd 2 (.promote "n1" ""),
+        .cmd 3 (.promote "n4" "n1")]).cl.nodes.get? "n4" = none ∧
+    (PreFix.runEv State.empty [.cmd 1 (.addNode (nodeW "n1" "")), .cmd 2 (.promote "n1" ""),
+        .cmd 3 (.removeNode "n1")]).cl.pw = "n1" ∧
+    (PreFix.runEv State.empty [.cmd 1 (.addNode (nodeW "n1" "")), .cmd 2 (.promote "n1" ""),
+        .cmd 3 (.removeNode "n1")]).cl.nodes.get? "n1" = none ∧
+    (PreFix.runEv State.empty [.cmd 1 (.addNode (nodeW "n1" "")), .cmd 2 (.promote "n1" ""),
+        .cmd 3 (.addNode (nodeW "n1" ""))]).cl.pw = "n1" ∧
+    ((PreFix.runEv State.empty [.cmd 1 (.addNode (nodeW "n1" "")), .cmd 2 (.promote "n1" ""),
+        .cmd 3 (.addNode (nodeW "n1" ""))]).cl.nodes.get? "n1").map (·.wstate) = some "" := by decide
 
-/-- non-vacuity: a safe history with promotion, failover and a rejoin of a standby -/
-example :
-    roleSafeRun State.empty
-      [.cmd 1 (.addNode (nodeW "n1" "")), .cmd 2 (.addNode (nodeW "n2" "")), .cmd 3 (.promote "n1" ""),
-       .restore, .cmd 5 (.promote "n2" "n1"), .cmd 6 (.addNode (nodeW "n1" "")), .cmd 7 (.demote "n2")] = true := by
-  decide
-
-/-! ## clause (2): the primary writer id names an existing node that is marked primary -/
-
-/-- **C23_primary_exists_witness_promote_unknown.** `applyPromoteWriter` demotes the old primary and
-sets `primaryWriterID` BEFORE returning "node not found" (monitor `primary-exists:promote-unknown`). -/
-theorem C23_primary_exists_witness_promote_unknown :
-    let s := runEv State.empty
-      [.cmd 1 (.addNode (nodeW "n1" "")), .cmd 2 (.promote "n1" ""), .cmd 3 (.promote "n4" "n1")]
-    (apply (runEv State.empty [.cmd 1 (.addNode (nodeW "n1" "")), .cmd 2 (.promote "n1" "")]) 3
-        (.promote "n4" "n1")).2 = .notfound ∧
-    s.cl.pw = "n4" ∧ s.cl.nodes.get? "n4" = none ∧
-    (s.cl.nodes.get? "n1").map (·.wstate) = some "standby" ∧ ¬ PrimaryExists s.cl := by
-  refine ⟨by decide, by decide, by decide, by decide, ?_⟩
-  intro h
-  obtain ⟨n, hn, _⟩ := h (by decide)
-  have hpw : (runEv State.empty
-      [.cmd 1 (.addNode (nodeW "n1" "")), .cmd 2 (.promote "n1" ""), .cmd 3 (.promote "n4" "n1")]).cl.pw = "n4" := by decide
-  have e : (runEv State.empty
-      [.cmd 1 (.addNode (nodeW "n1" "")), .cmd 2 (.promote "n1" ""), .cmd 3 (.promote "n4" "n1")]).cl.nodes.get? "n4" = none := by decide
-  rw [hpw, e] at hn
-  exact absurd hn (by simp)
-
-/-- **C23_primary_exists_witness_remove_primary.** RemoveNode of the primary (a leave) keeps
-`primaryWriterID` (monitor `primary-exists:remove-primary`). -/
-theorem C23_primary_exists_witness_remove_primary :
-    ¬ PrimaryExists (runEv State.empty
-      [.cmd 1 (.addNode (nodeW "n1" "")), .cmd 2 (.promote "n1" ""), .cmd 3 (.removeNode "n1")]).cl := by
-  intro h
-  obtain ⟨n, hn, _⟩ := h (by decide)
-  have hpw : (runEv State.empty
-      [.cmd 1 (.addNode (nodeW "n1" "")), .cmd 2 (.promote "n1" ""), .cmd 3 (.removeNode "n1")]).cl.pw = "n1" := by decide
-  have e : (runEv State.empty
-      [.cmd 1 (.addNode (nodeW "n1" "")), .cmd 2 (.promote "n1" ""), .cmd 3 (.removeNode "n1")]).cl.nodes.get? "n1" = none := by decide
-  rw [hpw, e] at hn
-  exact absurd hn (by simp)
-
-/-- **C23_primary_exists_witness_rejoin.** The primary rejoins: `handleJoinRequest` proposes AddNode
-with an empty writer_state, the record is replaced, `primaryWriterID` still names it
-(monitor `primary-exists:record-replaced`). -/
-theorem C23_primary_exists_witness_rejoin :
-    ¬ PrimaryExists (runEv State.empty
-      [.cmd 1 (.addNode (nodeW "n1" "")), .cmd 2 (.promote "n1" ""), .cmd 3 (.addNode (nodeW "n1" ""))]).cl := by
-  intro h
-  obtain ⟨n, hn, hm⟩ := h (by decide)
-  have : n = nodeW "n1" "" := by
-    have e : (runEv State.empty
-      [.cmd 1 (.addNode (nodeW "n1" "")), .cmd 2 (.promote "n1" ""), .cmd 3 (.addNode (nodeW "n1" ""))]).cl.nodes.get? "n1"
-        = some (nodeW "n1" "") := by decide
-    have hpw : (runEv State.empty
-      [.cmd 1 (.addNode (nodeW "n1" "")), .cmd 2 (.promote "n1" ""), .cmd 3 (.addNode (nodeW "n1" ""))]).cl.pw = "n1" := by decide
-    rw [hpw, e] at hn
-    exact (Option.some.inj hn).symm
-  subst this
-  revert hm
-  decide
-
-/-- **C23_primary_exists_partial.** Inside the carve-out, a non-empty `primaryWriterID` always names
-an existing node marked primary — for every history, with restores anywhere. -/
-theorem C23_primary_exists_partial (evs : List Ev) (hs : roleSafeRun State.empty evs = true) :
-    PrimaryExists (runEv State.empty evs).cl :=
-  (roleInv_run State.empty evs roleInv_empty hs).2
-
-/-- … and in such histories a node is marked primary only if it is the recorded primary writer. -/
-theorem C23_marked_is_recorded_partial (evs : List Ev) (hs : roleSafeRun State.empty evs = true)
-    (k : String) (n : NodeInfo) (h : (runEv State.empty evs).cl.nodes.get? k = some n)
-    (hm : n.wstate = "primary") : k = (runEv State.empty evs).cl.pw :=
-  ((roleInv_run State.empty evs roleInv_empty hs).1 k n h hm).1
-
-example : ∃ evs, roleSafeRun State.empty evs = true ∧ (runEv State.empty evs).cl.pw = "n2" :=
-  ⟨[.cmd 1 (.addNode (nodeW "n1" "")), .cmd 2 (.addNode (nodeW "n2" "")), .cmd 3 (.promote "n1" ""),
-    .cmd 4 (.promote "n2" "n1")], by decide, by decide⟩
-
-/-! ## clause (3): re-registering a node -/
-
-/-- **C23_reregister_witness.** AddNode of an existing id replaces the whole record: the recorded
-`writer_state` "primary" silently becomes "" (monitor `reregister:role-changed`). -/
-theorem C23_reregister_witness :
-    let s := runEv State.empty [.cmd 1 (.addNode (nodeW "n1" "")), .cmd 2 (.promote "n1" "")]
-    (s.cl.nodes.get? "n1").map (·.wstate) = some "primary" ∧
-    (apply s 3 (.addNode (nodeW "n1" ""))).2 = .ok ∧
-    ((apply s 3 (.addNode (nodeW "n1" ""))).1.cl.nodes.get? "n1").map (·.wstate) = some "" ∧
-    (apply s 3 (.addNode (nodeW "n1" ""))).1.cl.pw = "n1" := by
-  decide
-
-/-- **C23_reregister_partial.** Re-registration preserves the recorded role assignment exactly when
-the payload repeats it (carve-out: `n.wstate = old.wstate`); in every case it leaves
-`primaryWriterID`, the compactor lease and every other node's record untouched. -/
-theorem C23_reregister_partial (s : State) (i : Nat) (n old : NodeInfo)
-    (_hold : s.cl.nodes.get? n.id = some old) (hcarve : n.wstate = old.wstate) :
-    (∃ n', (apply s i (.addNode n)).1.cl.nodes.get? n.id = some n' ∧ n'.wstate = old.wstate) ∧
-    (apply s i (.addNode n)).1.cl.pw = s.cl.pw ∧
-    (apply s i (.addNode n)).1.cl.compactor = s.cl.compactor ∧
-    (∀ k, k ≠ n.id → (apply s i (.addNode n)).1.cl.nodes.get? k = s.cl.nodes.get? k) := by
-  refine ⟨⟨n, ?_, hcarve⟩, rfl, rfl, ?_⟩
-  · show (s.cl.nodes.ins n.id n).get? n.id = some n
-    exact get?_ins_self _ _ _
-  · intro k hk
-    show (s.cl.nodes.ins n.id n).get? k = s.cl.nodes.get? k
-    exact get?_ins_ne _ _ _ _ hk
-
-example : ∃ (s : State) (n old : NodeInfo), s.cl.nodes.get? n.id = some old ∧ n.wstate = old.wstate ∧
-    old.wstate = "primary" :=
-  ⟨runEv State.empty [.cmd 1 (.addNode (nodeW "n1" "")), .cmd 2 (.promote "n1" "")],
-   nodeW "n1" "primary", nodeW "n1" "primary", by decide, rfl, rfl⟩
+/-- the same three histories on the CURRENT functions end in a consistent state -/
+theorem C23_prefix_histories_now_fine :
+    (runEv State.empty [.cmd 1 (.addNode (nodeW "n1" "")), .cmd 2 (.promote "n1" ""),
+        .cmd 3 (.promote "n4" "n1")]).cl.pw = "n1" ∧
+    (runEv State.empty [.cmd 1 (.addNode (nodeW "n1" "")), .cmd 2 (.promote "n1" ""),
+        .cmd 3 (.removeNode "n1")]).cl.pw = "" ∧
+    ((runEv State.empty [.cmd 1 (.addNode (nodeW "n1" "")), .cmd 2 (.promote "n1" ""),
+        .cmd 3 (.addNode (nodeW "n1" ""))]).cl.nodes.get? "n1").map (·.wstate) = some "primary" := by decide
 
 /-! ## clause (4): RBAC children always have existing parents (full strength) -/
 
@@ -403,138 +378,16 @@ example :
     (runEv State.empty (evs ++ [.cmd 6 (.deleteOrg 1)])).au.members = [] ∧
     (runEv State.empty (evs ++ [.cmd 6 (.deleteOrg 1)])).au.roles = [] := by decide
 
-/-! ## what the proposed repair buys (NOT tied to the source: a model of the patched functions)
-
-The patch proposed in the report changes three functions: AddNode/UpdateNode keep the recorded
-`writer_state` of an existing id and never introduce a "primary" mark, RemoveNode clears
-`primaryWriterID` when it removes that node, PromoteWriter rejects an unknown id before mutating.
-With these the carve-out disappears: the same invariant is preserved by EVERY command. -/
-
-def addNodeR (s : NodeSt) (n : NodeInfo) : NodeSt :=
-  match s.nodes.get? n.id with
-  | some old => { s with nodes := s.nodes.ins n.id { n with wstate := old.wstate } }
-  | none => { s with nodes := s.nodes.ins n.id { n with wstate := if n.wstate = "primary" then "" else n.wstate } }
-
-def removeNodeR (s : NodeSt) (id : String) : NodeSt :=
-  { s with nodes := s.nodes.del id, pw := if s.pw = id then "" else s.pw }
-
-def promoteR (s : NodeSt) (id : String) : NodeSt :=
-  if s.nodes.has id then (applyPromote s id).1 else s
-
-def clStepR (s : NodeSt) : Cmd → NodeSt
-  | .addNode n => addNodeR s n
-  | .updateNode n => addNodeR s n
-  | .removeNode id => removeNodeR s id
-  | .promote id _ => promoteR s id
-  | c => clStep s c
-
-theorem roleInv_addNodeR {s : NodeSt} (h : RoleInv s) (n : NodeInfo) : RoleInv (addNodeR s n) := by
-  unfold addNodeR
-  cases hg : s.nodes.get? n.id with
-  | some old =>
-    refine ⟨?_, ?_⟩
-    · intro k m hk hm
-      simp only [get?_ins] at hk
-      by_cases hkn : k = n.id
-      · simp only [hkn, if_true, Option.some.injEq] at hk
-        subst hk
-        rw [hkn]; exact h.1 n.id old hg hm
-      · simp only [hkn, if_false] at hk; exact h.1 k m hk hm
-    · intro hpw
-      simp only at hpw ⊢
-      simp only [get?_ins]
-      by_cases hkn : s.pw = n.id
-      · simp only [hkn, if_true]
-        obtain ⟨q, hq, hm⟩ := h.2 hpw
-        rw [hkn, hg] at hq
-        cases hq
-        exact ⟨_, rfl, hm⟩
-      · simp only [hkn, if_false]; exact h.2 hpw
-  | none =>
-    refine ⟨?_, ?_⟩
-    · intro k m hk hm
-      simp only [get?_ins] at hk
-      by_cases hkn : k = n.id
-      · simp only [hkn, if_true, Option.some.injEq] at hk
-        subst hk
-        exfalso
-        by_cases hp : n.wstate = "primary"
-        · simp [hp] at hm
-        · simp [hp] at hm
-      · simp only [hkn, if_false] at hk; exact h.1 k m hk hm
-    · intro hpw
-      simp only at hpw ⊢
-      simp only [get?_ins]
-      obtain ⟨q, hq, hm⟩ := h.2 hpw
-      have hkn : s.pw ≠ n.id := by
-        intro e; rw [e, hg] at hq; exact absurd hq (by simp)
-      simp only [hkn, if_false]; exact ⟨q, hq, hm⟩
-
-theorem roleInv_removeNodeR {s : NodeSt} (h : RoleInv s) (id : String) : RoleInv (removeNodeR s id) := by
-  unfold removeNodeR
-  refine ⟨?_, ?_⟩
-  · intro k m hk hm
-    simp only [get?_del] at hk
-    by_cases hkn : k = id
-    · simp [hkn] at hk
-    · simp only [hkn, if_false] at hk
-      have := h.1 k m hk hm
-      have hne : s.pw ≠ id := fun e => hkn (this.1.trans e)
-      simp only [hne, if_false]; exact this
-  · intro hpw
-    simp only at hpw ⊢
-    by_cases hpi : s.pw = id
-    · simp [hpi] at hpw
-    · simp only [hpi, if_false] at hpw ⊢
-      simp only [get?_del, hpi, if_false]; exact h.2 hpw
-
-theorem roleInv_clStepR {s : NodeSt} (h : RoleInv s) (c : Cmd) : RoleInv (clStepR s c) := by
-  cases c <;> try exact h
-  · exact roleInv_addNodeR h _
-  · exact roleInv_removeNodeR h _
-  · exact roleInv_addNodeR h _
-  · exact roleInv_updateNodeState h _ _
-  · show RoleInv (promoteR s _)
-    unfold promoteR
-    split
-    · rename_i hh; exact roleInv_promote h _ (Or.inr hh)
-    · exact h
-  · exact roleInv_demote h _
-  · exact roleInv_compactor h _
-
-def runR (s : NodeSt) : List Cmd → NodeSt
-  | [] => s
-  | c :: cs => runR (clStepR s c) cs
-
-/-- **C23_repaired_roles_full.** For the patched transition functions, clauses (1) and (2) hold
-for ALL command histories, with no carve-out; and re-registration preserves the recorded
-writer_state unconditionally. -/
-theorem C23_repaired_roles_full (cs : List Cmd) :
-    OnePrimary (runR {} cs) ∧ PrimaryExists (runR {} cs) := by
-  have : ∀ (s : NodeSt), RoleInv s → RoleInv (runR s cs) := by
-    induction cs with
-    | nil => intro s h; exact h
-    | cons c t ih => intro s h; exact ih _ (roleInv_clStepR h c)
-  have h := this {} roleInv_empty
-  exact ⟨onePrimary_of_inv h, h.2⟩
-
-theorem C23_repaired_reregister_full (s : NodeSt) (n old : NodeInfo) (h : s.nodes.get? n.id = some old) :
-    ∃ n', (addNodeR s n).nodes.get? n.id = some n' ∧ n'.wstate = old.wstate := by
-  unfold addNodeR
-  rw [h]
-  exact ⟨_, get?_ins_self _ _ _, rfl⟩
-
 /-! ## tie to the source -/
 
-/-- **C23_model_quirks_tied.** The three source shapes behind the findings are what the model
-encodes (regenerated from `/repo` on every run): AddNode/UpdateNode replace the whole record,
-`applyPromoteWriter` assigns `primaryWriterID` before its not-found return, `applyRemoveNode` never
-touches `primaryWriterID`, and `handleJoinRequest` proposes node records without a writer_state.
-A repair flips one of these facts and re-opens the corresponding witness/partial pair. -/
+/-- **C23_model_quirks_tied.** The source shapes the role theorems rest on are what the model
+encodes (regenerated from `/repo` on every run): AddNode/UpdateNode overwrite the payload's
+writer_state with the recorded one (or clear a "primary" claim of a new id) BEFORE storing the record;
+`applyPromoteWriter`'s not-found guard precedes every mutation; `applyRemoveNode` clears
+`primaryWriterID` when it removes that node. Reverting any of the three fixes flips a fact. -/
 theorem C23_model_quirks_tied :
-    Arc.Generated.C23.addNodeReplacesRecord = true ∧ Arc.Generated.C23.updateNodeReplacesRecord = true ∧
-    Arc.Generated.C23.promoteSetsPrimaryBeforeNotFound = true ∧
-    Arc.Generated.C23.removeNodeTouchesPrimary = false ∧
-    Arc.Generated.C23.joinRequestSetsWriterState = false := by decide
+    Arc.Generated.C23.addNodeKeepsWriterState = true ∧ Arc.Generated.C23.updateNodeKeepsWriterState = true ∧
+    Arc.Generated.C23.promoteValidatesBeforeMutating = true ∧
+    Arc.Generated.C23.removeNodeClearsPrimary = true := by decide
 
 end Arc.C23
